@@ -1,0 +1,10 @@
+//go:build !verif
+
+package parser
+
+import "github.com/verily-src/fhirpath-go/fhirpath/internal/expr"
+
+// verifWrap is the identity unless the module is built with the "verif" tag
+// (see verif_on.go). It exists so that a verification harness can observe every
+// expression node the visitor produces.
+func verifWrap(e expr.Expression) expr.Expression { return e }
